@@ -8,7 +8,7 @@ CONSTANTS
   BoundFloor = 1048576
   SendCap = 2
   AckCap = 2
-  MaxBufs = {1024, 4096, 10240, 40960, 1073741824}
+  MaxBufs = {4096, 40960, 1073741824}
   Modes = {"bin"}
   Protos = {4}
   Secs = {2, 20}
